@@ -34,6 +34,20 @@ type pdfRevision struct {
 	widths    [3]int              // /W of a cross-reference stream
 }
 
+// pdfEOL: the end-of-line marker written between the structural parts of the file
+// ("\n", "\r\n" or "\r"); after the stream keyword a lone CR is not allowed and LF is used.
+var pdfEOL = "\n"
+
+// pdfHeader: the first line of the file
+var pdfHeader = "%PDF-1.7"
+
+func pdfStreamEOL() string {
+	if pdfEOL == "\r" {
+		return "\n"
+	}
+	return pdfEOL
+}
+
 type pdfWritten struct {
 	data     []byte
 	sections [][]pdfXrefEntry // per revision, as written
@@ -49,13 +63,14 @@ func pdfStream(dict string, data []byte, flate bool) string {
 		data = b.Bytes()
 		dict += " /Filter /FlateDecode"
 	}
-	return fmt.Sprintf("<< %s /Length %d >>\nstream\n%s\nendstream", dict, len(data), data)
+	return fmt.Sprintf("<< %s /Length %d >>%sstream%s%s%sendstream", dict, len(data), pdfEOL, pdfStreamEOL(), data, pdfEOL)
 }
 
 func pdfWrite(revs []pdfRevision) pdfWritten {
 	var out bytes.Buffer
 	w := pdfWritten{offsets: map[int64]int{}}
-	out.WriteString("%PDF-1.7\n%\xe2\xe3\xcf\xd3\n")
+	nl := pdfEOL
+	out.WriteString(pdfHeader + nl + "%\xe2\xe3\xcf\xd3" + nl)
 	prev := int64(-1)
 	size := 1
 	for ri, rev := range revs {
@@ -65,7 +80,7 @@ func pdfWrite(revs []pdfRevision) pdfWritten {
 		}
 		emit := func(num int, body string) {
 			off := int64(out.Len())
-			fmt.Fprintf(&out, "%d 0 obj\n%s\nendobj\n", num, body)
+			fmt.Fprintf(&out, "%d 0 obj%s%s%sendobj%s", num, nl, body, nl, nl)
 			entries = append(entries, pdfXrefEntry{num, 1, off, 0})
 			w.offsets[off] = num
 			if num >= size {
@@ -138,22 +153,28 @@ func pdfWrite(revs []pdfRevision) pdfWritten {
 			if prev >= 0 {
 				dict += fmt.Sprintf(" /Prev %d", prev)
 			}
-			fmt.Fprintf(&out, "%d 0 obj\n%s\nendobj\n", rev.xrefNum, pdfStream(dict, data.Bytes(), rev.flate))
+			fmt.Fprintf(&out, "%d 0 obj%s%s%sendobj%s", rev.xrefNum, nl, pdfStream(dict, data.Bytes(), rev.flate), nl, nl)
 		} else {
 			sort.SliceStable(entries, func(i, j int) bool { return entries[i].num < entries[j].num })
-			out.WriteString("xref\n")
+			out.WriteString("xref" + nl)
+			enl := " \n" // cross-reference entries are 20 bytes: the line end is two bytes
+			if nl == "\r\n" {
+				enl = "\r\n"
+			} else if nl == "\r" {
+				enl = " \r"
+			}
 			for i := 0; i < len(entries); {
 				j := i
 				for j+1 < len(entries) && entries[j+1].num == entries[j].num+1 {
 					j++
 				}
-				fmt.Fprintf(&out, "%d %d\n", entries[i].num, j-i+1)
+				fmt.Fprintf(&out, "%d %d%s", entries[i].num, j-i+1, nl)
 				for k := i; k <= j; k++ {
 					e := entries[k]
 					if e.kind == 0 {
-						fmt.Fprintf(&out, "%010d %05d f \n", e.a, e.b)
+						fmt.Fprintf(&out, "%010d %05d f%s", e.a, e.b, enl)
 					} else {
-						fmt.Fprintf(&out, "%010d %05d n \n", e.a, e.b)
+						fmt.Fprintf(&out, "%010d %05d n%s", e.a, e.b, enl)
 					}
 				}
 				i = j + 1
@@ -162,9 +183,9 @@ func pdfWrite(revs []pdfRevision) pdfWritten {
 			if prev >= 0 {
 				tr += fmt.Sprintf(" /Prev %d", prev)
 			}
-			fmt.Fprintf(&out, "trailer\n<< %s >>\n", tr)
+			fmt.Fprintf(&out, "trailer%s<< %s >>%s", nl, tr, nl)
 		}
-		fmt.Fprintf(&out, "startxref\n%d\n%%%%EOF\n", xrefOff)
+		fmt.Fprintf(&out, "startxref%s%d%s%%%%EOF%s", nl, xrefOff, nl, nl)
 		prev = xrefOff
 		w.sections = append(w.sections, entries)
 	}
